@@ -45,6 +45,8 @@ PURE_CALLS = {
     "sum", "any", "all", "type", "id", "hash", "format", "print", "round", "slice", "next", "callable", "issubclass",
     "ord", "chr", "divmod", "pow",
 }
+# attributes holding user-supplied pure functions (assumption recorded in the evidence)
+PURE_VALUE_CALLS = {"ideal_unitary", "_ideal_unitary"}
 PURE_MODULE_PREFIXES = ("numpy", "math", "itertools", "collections", "warnings", "os", "re", "functools", "copy")
 
 
@@ -84,7 +86,7 @@ class Ownership:
 
     # ------------------------------------------------------------------ API
     def analyse(self, entries: List[str], max_rounds: int = 12):
-        g = self.T.graph(weak=False)
+        g = self.T.graph(weak=True)
         seen: Set[str] = set()
         stack = list(entries)
         while stack:
@@ -113,9 +115,9 @@ class Ownership:
 
     # -------------------------------------------------------------- helpers
     def _join_store(self, table, key, val: AV):
-        old = table.get(key, EMPTY)
-        new = old | val
-        if new != old:
+        old = table.get(key)
+        new = (old or EMPTY) | val
+        if old is None or new != old:
             table[key] = new
             self.changed = True
 
@@ -136,8 +138,10 @@ class Ownership:
             elif isinstance(a, tuple) and a[0] == "S":
                 out.add(a)
             elif isinstance(a, tuple) and a[0] == "P":
-                out.add(a)
+                out.add(("PR", a[1], a[2]))
                 out |= self.contents.get(a, EMPTY)
+            elif isinstance(a, tuple) and a[0] == "PR":
+                out.add(a)
             elif isinstance(a, tuple) and a[0] == "CONT":
                 out |= self.contents.get(a, EMPTY)
             elif isinstance(a, tuple) and a[0] == "OBJ":
@@ -166,6 +170,8 @@ class Ownership:
             elif isinstance(a, tuple) and a[0] == "S":
                 out.add(("SELFATTR", a[1], attr))  # resolved by the evaluator (knows the class)
             elif isinstance(a, tuple) and a[0] == "P":
+                out.add(("PR", a[1], a[2]))
+            elif isinstance(a, tuple) and a[0] == "PR":
                 out.add(a)
             elif isinstance(a, tuple) and a[0] == "CONT":
                 out.add("UNKNOWN")
@@ -249,6 +255,13 @@ class Ownership:
                     out |= dfl[a[2]]
                 else:
                     out.add(a)  # unbound here: grounded later
+            elif isinstance(a, tuple) and a[0] == "PR" and a[1] == callee.qualname:
+                if a[2] in args:
+                    out |= self.read_from(args[a[2]])
+                elif a[2] in dfl:
+                    out |= self.read_from(dfl[a[2]])
+                else:
+                    out.add(a)
             elif isinstance(a, tuple) and a[0] == "SELFATTR":
                 out |= self.attr_of(recv if recv is not None else UNKNOWN, a[2]) if a[1] == callee.qualname else frozenset({"UNKNOWN"})
             else:
@@ -256,6 +269,72 @@ class Ownership:
         return frozenset(out)
 
     # ------------------------------------------------------------- grounding
+    def read_from(self, av: AV) -> AV:
+        """Abstract value of 'something read (at any depth) from a value in av'."""
+        out = set()
+        work = []
+        seen = set()
+
+        def push(x):
+            if x not in seen:
+                seen.add(x)
+                work.append(x)
+
+        for a in av:
+            push(a)
+        first = set(av)
+        while work:
+            a = work.pop()
+            if a in ("INPUT", "GLOBAL", "UNKNOWN"):
+                out.add(a)
+            elif a == "FRESH":
+                # values produced by pure library calls do not alias circuit objects (assumption)
+                out.add("FRESH")
+            elif isinstance(a, tuple) and a[0] in ("P", "PR"):
+                out.add(("PR", a[1], a[2]))
+                for x in self.contents.get(("P", a[1], a[2]), EMPTY):
+                    out.add(x)
+                    push(x)
+            elif isinstance(a, tuple) and a[0] == "S":
+                out.add("UNKNOWN")
+            elif isinstance(a, tuple) and a[0] == "CONT":
+                for x in self.contents.get(a, EMPTY):
+                    out.add(x)
+                    push(x)
+            elif isinstance(a, tuple) and a[0] == "OBJ":
+                for (site, attr), v in self.obj_stores.items():
+                    if site == a[1]:
+                        for x in v:
+                            out.add(x)
+                            push(x)
+                for v in self.site_args.get(a[1], {}).values():
+                    for x in v:
+                        out.add(x)
+                        push(x)
+        return frozenset(out)
+
+    def reach_closure(self, av: AV) -> AV:
+        out = set(av)
+        work = list(av)
+        while work:
+            a = work.pop()
+            more = EMPTY
+            if isinstance(a, tuple) and a[0] == "CONT":
+                more = self.contents.get(a, EMPTY)
+            elif isinstance(a, tuple) and a[0] == "OBJ":
+                acc = set()
+                for (site, attr), v in self.obj_stores.items():
+                    if site == a[1]:
+                        acc |= v
+                for v in self.site_args.get(a[1], {}).values():
+                    acc |= v
+                more = frozenset(acc)
+            for x in more:
+                if x not in out:
+                    out.add(x)
+                    work.append(x)
+        return frozenset(out)
+
     def ground(self, av: AV, _seen=None) -> AV:
         _seen = _seen if _seen is not None else set()
         out = set()
@@ -275,7 +354,22 @@ class Ownership:
                     # never called from the reachable set (e.g. only via an entry's dispatch): unknown origin
                     out.add("UNKNOWN")
                 else:
+                    # a P atom stands for the argument AND everything read from it:
+                    # close over the contents of fresh containers / fields of fresh objects passed in
                     out |= self.ground(vals, _seen)
+            elif isinstance(a, tuple) and a[0] == "PR":
+                key = ("PR", a[1], a[2])
+                if a[1] in self.entries:
+                    out.add("INPUT")
+                    continue
+                if key in _seen:
+                    continue
+                _seen.add(key)
+                vals = self.param_val.get((a[1], a[2]))
+                if vals is None:
+                    out.add("UNKNOWN")
+                else:
+                    out |= self.ground(self.read_from(vals), _seen)
             elif isinstance(a, tuple) and a[0] == "S":
                 key = ("S", a[1])
                 if key in _seen:
@@ -843,7 +937,8 @@ class _FuncEval:
                 return EMPTY
             # unresolved method call on a tracked receiver
             g = recv
-            o.unresolved.append((self.f, e, g))
+            if mname not in PURE_VALUE_CALLS:
+                o.unresolved.append((self.f, e, g))
             return UNKNOWN if any(a in ("INPUT", "UNKNOWN") or (isinstance(a, tuple) and a[0] == "P") for a in g) else frozenset({"FRESH"})
         if name in COPY_CALLS:
             at = ("CONT", id(e))
